@@ -4,7 +4,7 @@ Spec: specs/Identity.tla (relation idOf / keyOf over canonical keys built by TLA
 generator specs/Identity_Gen.tla (M2: every value term of the depth-2 grammar over a
 handful of atoms, extended atoms -- types, functions, attrs / plain / slots objects,
 paths, big ints, complex -- and arrays with every shape / dtype), monitor
-specs/Identity_Trace.tla (M4).
+specs/Identity_Obs.tla (M4, all pairs of observations in O(N log N)).
 
 Every generated term is materialised as a real Python value and hashed with the real
 pydra.utils.hash.hash_function / hash_object
